@@ -196,6 +196,7 @@ func (k *checker) verdictPack(pi, lo, hi int) {
 					break
 				}
 			}
+			k.c.Count("failing:accepts-conflict", 1)
 			k.c.Fail(vl.Fail{Case: "C07/accepts-conflict/" + id, Obs: "accepted although " + describe(p, s, real), Files: files})
 		case want == mustAccept && rej:
 			k.setMsg(pi, i, msg)
@@ -203,6 +204,7 @@ func (k *checker) verdictPack(pi, lo, hi int) {
 			if judge(conflicts(s, p.paths(), true)) == mustReject {
 				class = "nested-last-use"
 			}
+			k.c.Count("failing:"+class, 1)
 			k.c.Fail(vl.Fail{Case: "C07/" + class + "/" + id, Obs: "rejected although no live loan conflicts with any access: " + msg, Files: files})
 		case want == either:
 			k.setMsg(pi, i, msg)
@@ -307,6 +309,7 @@ func (k *checker) judgeRun(rc runCase, got []string, detail string) {
 		return
 	}
 	k.c.Outcome("run-mismatch")
+	k.c.Count("failing:run", 1)
 	k.c.Fail(vl.Fail{Case: rc.id,
 		Obs:   fmt.Sprintf("accepted, but the running program does not show write-through semantics: %s; want %s got %s", detail, strings.Join(rc.want, "|"), canonGarbage(got)),
 		Files: map[string]string{"main.fer": rc.single(), "expected.txt": strings.Join(rc.want, "\n") + "\n"}})
@@ -557,6 +560,14 @@ func Run(c *vl.Ctx) {
 				rcs = append(rcs, ref{int32(pi), int32(si)})
 			}
 		}
+		// small levels are spread over all workers (a 128-function program has a long latency)
+		packR := packR
+		if per := (len(rcs) + 31) / 32; per < packR {
+			packR = per
+			if packR < 16 {
+				packR = 16
+			}
+		}
 		npacks := (len(rcs) + packR - 1) / packR
 		var capped int32
 		vl.ParDo(npacks, 16, func(i int) {
@@ -584,10 +595,14 @@ func Run(c *vl.Ctx) {
 		verdictLevel(n)
 		runLevel(n)
 	}
-	for n := 4; n < nLevels; n++ {
+	if nLevels > maxLen+1 { // the few nested-block sequences of the quick tier
+		verdictLevel(nLevels - 1)
+		runLevel(nLevels - 1)
+	}
+	for n := 4; n <= maxLen; n++ {
 		verdictLevel(n)
 	}
-	for n := 4; n < nLevels; n++ {
+	for n := 4; n <= maxLen; n++ {
 		runLevel(n)
 	}
 	doneV, doneR := -1, -1
@@ -630,6 +645,7 @@ func Run(c *vl.Ctx) {
 				if judge(conflicts(t, p.paths(), true)) == mustReject {
 					class = "control-nested-last-use"
 				}
+				c.Count("failing:"+class, 1)
 				c.Fail(vl.Fail{Case: fmt.Sprintf("C07/%s/%s/%s", class, p.name, s),
 					Obs:   fmt.Sprintf("the control twin %s (%s) is rejected: %s", t, how, k.msgs[[2]int{pi, ti}]),
 					Files: map[string]string{"main.fer": single(p, t), "conflicting.fer": single(p, s)}})
